@@ -563,7 +563,9 @@ func (fx *FX) stdlibWrites(f *ssa.Function, in ssa.CallInstruction, cc *ssa.Call
 	off := 0
 	if sig.Recv() != nil {
 		off = 1
-		if _, isPtr := sig.Recv().Type().(*types.Pointer); isPtr && !stdlibPureMethods[sc.Name()] && len(cc.Args) > 0 {
+		// cryptobyte.String readers advance the slice HEADER they are called on; the bytes it points to are only read
+		headerOnly := strings.HasPrefix(id, "(*golang.org/x/crypto/cryptobyte.String).") && (strings.HasPrefix(sc.Name(), "Read") || strings.HasPrefix(sc.Name(), "Skip") || strings.HasPrefix(sc.Name(), "Peek") || strings.HasPrefix(sc.Name(), "Copy"))
+		if _, isPtr := sig.Recv().Type().(*types.Pointer); isPtr && !stdlibPureMethods[sc.Name()] && len(cc.Args) > 0 && !headerOnly {
 			addW(fx.trace(f, cc.Args[0], 0, seen), witness{in.Pos(), "call " + id + " (pointer-receiver library method)", nil})
 		}
 	}
